@@ -52,74 +52,50 @@ def nx23(F, R):
               {"returns": [show(e, b) for e in rets]})
         return
     rid = rets[0]
-    # the id is the key of a vertex-store item selected by find(pred)
-    finds = [x for x in walk(rid) if x[0] == "call" and x[1].split("::")[-1] in ("find", "position", "find_map")]
     detail = {"returned": show(rid, b)}
-    if not finds:
-        R.bad("NX2", "NX2/Sodg::next_id/not-a-store-search", b.where(), "cannot establish NX2: the returned id is not the result of a search over the vertex store", detail)
+    # the id is the key of an item of this graph's vertex store (found by find() or by a loop)
+    item = strip_load(rid[1]) if rid[0] == "field" and rid[2] == "(tuple)::0" else None
+    if item is None or item[0] != "item":
+        R.bad("NX2", "NX2/Sodg::next_id/not-a-store-search", b.where(), "cannot establish NX2: the returned id is not the key of an item of a search over the vertex store", detail)
         return
-    f = finds[0]
-    src = iter_source(f[2][0])
-    ads = iter_adaptors(f[2][0])
+    src = iter_source(item[1])
+    ads = iter_adaptors(item[1])
     if src is None or strip_load(src)[0] != "field" or strip_load(src)[2] != "Sodg::vertices" or strip_load(strip_load(src)[1]) != ("param", 1):
         R.bad("NX2", "NX2/Sodg::next_id/search-not-over-own-store", b.where(), "the id search does not walk this graph's vertex store", detail)
         return
     if [a for a, _ in ads if a not in ("filter",)]:
         R.bad("NX2", "NX2/Sodg::next_id/search-restricted", b.where(), "the id search skips part of the store (%s)" % [a for a, _ in ads], detail)
-    pred = strip_load(f[2][1])
-    cb = F.bodies.get(pred[1]) if pred[0] == "closure" else None
-    if cb is None:
-        R.bad("NX2", "NX2/Sodg::next_id/predicate-unreadable", b.where(), "cannot establish NX2: search predicate is not a closure", detail)
-        return
-    R.analysed(cb, sum(1 for _ in cb.sites()))
-    # captured values in the parent
-    env = {}
-    for ui, uop in enumerate(pred[2]):
-        ue = uop
-        if ue[0] == "addr":
-            ue = b.expr_local(ue[1], ue[2])
-        env[("upvar", ui)] = ue
-    summ = pred_summary(cb)
-    pre = None
-    for w in [e for e in raw if e.kind == "write" and strip_load(e.loc)[0] == "field" and strip_load(e.loc)[2] == "Sodg::next_v"]:
-        pass
-    ok_all = bool(summ)
-    why = []
-    for conj in summ:
-        absent = excludes_all_but(conj, lambda s: is_tag_of(s) and mentions(s, lambda x: x == ("param", 2)), 0)
-        ge = None
-        for fct in conj:
-            if fct[0] == "cmp" and fct[1] in ("<=", "<"):
-                lo, hi = strip_load(fct[2]), strip_load(fct[3])
-                # P <= key  (or P-1 < key)
-                if mentions(hi, lambda x: x == ("param", 2)) and hi[0] == "field" and hi[2] == "(tuple)::0":
-                    lo2 = simplify_env(lo, env)
-                    if fct[1] == "<=" and is_prestate_position(lo2, b, raw):
-                        ge = fct
-        if not absent:
-            ok_all = False
-            why.append("the predicate accepts a slot without testing that it is absent (tag == 0)")
-        if ge is None:
-            ok_all = False
-            why.append("the predicate does not require key >= the allocator position read before the search")
-    if not ok_all:
-        kind = "no-absent-test" if any("absent" in w for w in why) else "no-position-bound"
-        R.bad("NX2", "NX2/Sodg::next_id/predicate-%s" % kind, cb.where(),
-              "; ".join(sorted(set(why))) + ": next_id() can return a present id or one it returned before",
-              {"predicate": [[show(x, cb) for x in sorted(conj, key=repr)] for conj in summ]})
-    else:
-        R.ok("NX2", cb.where(), "id = key of a store item with tag ∈ {0} and key >= pre-state allocator position",
-             {"predicate": [[show(x, cb) for x in sorted(conj, key=repr)] for conj in summ]})
-    # the mapped value is the key
-    maps = [x for x in walk(rid) if x[0] == "call" and x[1].split("::")[-1] == "map" and len(x[2]) > 1]
-    for m in maps:
-        mc = strip_load(m[2][1])
-        mb = F.bodies.get(mc[1]) if mc[0] == "closure" else None
-        if mb is not None:
-            r = returned_exprs(mb)
-            if not (len(r) == 1 and r[0][0] == "field" and r[0][2] == "(tuple)::0" and strip_load(r[0][1]) == ("param", 2)):
-                R.bad("NX2", "NX2/Sodg::next_id/result-not-the-key", mb.where(), "the value returned is not the key of the slot found",
-                      {"mapped": [show(x, mb) for x in r]})
+    # what is known about that item where the function returns
+    facts = set()
+    for r in b.returns:
+        fs = b.facts_at((r, b.term_idx(r)))
+        facts = set(fs) if not facts else (facts & set(fs))
+    for an, ex in ads:   # predicates of filter adaptors hold of the item as well
+        cbx = F.bodies.get(strip_load(ex[0])[1]) if ex and strip_load(ex[0])[0] == "closure" else None
+        if cbx is not None:
+            for conj in pred_summary(cbx)[:1]:
+                facts |= {subst(f, {("param", 2): item}) for f in conj}
+    istr = strip_sites(item)
+
+    def of_item(e):
+        return mentions(strip_sites(e), lambda x: x == istr)
+    absent = any(f[0] == "in" and f[2] == frozenset([0]) and is_tag_of(f[1]) and of_item(f[1]) for f in facts)
+    bound = False
+    for f in facts:
+        if f[0] == "cmp" and f[1] == "<=":
+            lo, hi = strip_load(f[2]), strip_load(f[3])
+            if hi[0] == "field" and hi[2] == "(tuple)::0" and of_item(hi) and is_prestate_position(f[2], b, raw):
+                bound = True
+    shown = {"known about the item": [show(f, b) for f in sorted(facts, key=repr) if "Level" not in repr(f)][:8]}
+    if not absent:
+        R.bad("NX2", "NX2/Sodg::next_id/predicate-no-absent-test", b.where(),
+              "the slot whose key is returned is not tested to be absent (tag == 0): next_id() can return a present id", shown)
+    if not bound:
+        R.bad("NX2", "NX2/Sodg::next_id/predicate-no-position-bound", b.where(),
+              "the key returned is not required to be >= the allocator position read before the search: next_id() can return an id "
+              "it returned before", shown)
+    if absent and bound:
+        R.ok("NX2", b.where(), "id = key of a store item with tag ∈ {0} and key >= pre-state allocator position", shown)
     # NX3: position := id + 1 on every path, or only skipped when already larger
     ws = [e for e in raw if e.kind == "write" and strip_load(e.loc)[0] == "field" and strip_load(e.loc)[2] == "Sodg::next_v"]
     if not ws:
@@ -136,6 +112,14 @@ def nx23(F, R):
         badg = []
         for fct in w.facts:
             if fct[0] == "bool" and strip_load(fct[1])[0] == "ovf":
+                continue
+            # what is known about the item found is a consequence of the search, not a condition of the update
+            if fct[0] in ("in", "notin") and is_tag_of(fct[1]) and mentions(fct[1], lambda x: x[0] == "item"):
+                continue
+            if fct[0] == "in" and strip_load(fct[1])[0] == "discr" and strip_load(strip_load(fct[1])[1])[0] in ("next", "find", "phi"):
+                continue
+            if fct[0] == "cmp" and fct[1] in ("<=", "<") and strip_load(fct[3])[0] == "field" and strip_load(fct[3])[2] == "(tuple)::0" and \
+                    mentions(fct[3], lambda x: x[0] == "item") and is_prestate_position(fct[2], b, raw):
                 continue
             if fct[0] == "cmp":
                 l, r = strip_load(fct[2]), strip_load(fct[3])
